@@ -33,6 +33,8 @@ pub trait Property {
     fn assumptions(&self) -> Vec<String> { vec![] }
     /// random cases per worker for (quick, thorough)
     fn budget(&self) -> (u64, u64) { (2000, 50_000) }
+    /// shrink steps after a failure (each step re-runs the case: keep small when cases cost real time)
+    fn max_shrink_iters(&self) -> u32 { 6000 }
     /// hand-written / regression cases checked first in every tier
     fn fixed(&self, _rep: &mut Report) -> Vec<(String, CaseResult)> { vec![] }
 }
@@ -186,7 +188,7 @@ pub fn run_worker(prop: &dyn Property, cfg: &WorkerCfg) -> Value {
                 cases: cases as u32,
                 failure_persistence: None,
                 rng_seed: RngSeed::Fixed(seed),
-                max_shrink_iters: 6000,
+                max_shrink_iters: prop.max_shrink_iters(),
                 max_global_rejects: 1,
                 ..Config::default()
             };
